@@ -27,7 +27,69 @@ impl<'a> Tr<'a> {
 
     /// a method of the same impl header as the function being translated: its abstracted `R::ITEM` parameters are the
     /// caller's own parameters of the same names
+    /// `path::Trait::<A, ..>::f(..)` inside an impl for Self, where a configured `impl<X..> Trait<X..> for Self` has `f`: the callee
+    /// and the values of its abstracted items (its `X::ITEM` is `A::ITEM` of the caller)
+    pub fn trait_static_target(&self, p: &syn::Path, env: &Env, at: &Expr) -> R<Option<(FnInfo, Vec<String>)>> {
+        if p.segments.len() < 2 || self.self_ty.is_none() {
+            return Ok(None);
+        }
+        let tseg = &p.segments[p.segments.len() - 2];
+        let tname = tseg.ident.to_string();
+        let fname = p.segments.last().unwrap().ident.to_string();
+        if tname == "Self" || self.generic_tys.contains(&tname) || IntTy::from_name(&tname).is_some() {
+            return Ok(None);
+        }
+        let rn = self.resolve_type_name(&tname);
+        if self.t.adts.contains_key(&rn) || self.t.externs.contains_key(&rn) {
+            return Ok(None);
+        }
+        let targs: Vec<String> = match &tseg.arguments {
+            PathArguments::AngleBracketed(a) => a.args.iter().filter_map(|g| if let GenericArgument::Type(Type::Path(tp)) = g { tp.path.get_ident().map(|i| i.to_string()) } else { None }).collect(),
+            _ => vec![],
+        };
+        let fs: Vec<FnInfo> = self
+            .t
+            .fns
+            .iter()
+            .filter(|f| f.name == fname && f.self_ty == self.self_ty && f.trait_name.as_deref().map_or(false, |t| t == tname || t.starts_with(&format!("{}<", tname))))
+            .cloned()
+            .collect();
+        if fs.len() != 1 {
+            return Ok(None);
+        }
+        let f = fs[0].clone();
+        let tn = f.trait_name.clone().unwrap();
+        let cargs: Vec<String> = if tn.len() > tname.len() { tn[tname.len() + 1..tn.len() - 1].split(',').map(|x| x.trim().to_string()).collect() } else { vec![] };
+        if cargs.len() != targs.len() {
+            return Err(unsupported(at, &format!("call of `{}` through its trait: the trait's type arguments must be written (`{}::<..>::{}`)", f.key, tname, fname)));
+        }
+        // Self of the call is inferred by Rust from the argument / result types: accepted only when the callee mentions Self there
+        let self_t = Ty::Adt(f.self_ty.clone().unwrap());
+        let mentions = |t: &Ty| format!("{:?}", t).contains(&format!("{:?}", self_t));
+        if !(f.self_kind != SelfKind::None || mentions(&f.ret) || f.params.iter().any(|p| mentions(&p.1))) {
+            return Err(unsupported(at, &format!("call of `{}` through its trait: Self does not occur in its signature", f.key)));
+        }
+        let mut vals = vec![];
+        for (k, t) in f.assoc_params.iter() {
+            let mut parts: Vec<String> = k.split("::").map(|x| x.to_string()).collect();
+            if let Some(gi) = cargs.iter().position(|g| *g == parts[0]) {
+                parts[0] = targs[gi].clone();
+            }
+            let nk = parts.join("::");
+            match env.get(&nk) {
+                Some(v) if v.ty == *t => vals.push(v.coq.clone()),
+                _ => return Err(unsupported(at, &format!("call of `{}` through its trait: its abstracted item `{}` (`{}` here) is not a parameter of this function", f.key, k, nk))),
+            }
+        }
+        Ok(Some((f, vals)))
+    }
+
     pub fn inherited_assoc(&self, f: &FnInfo, env: &Env) -> Option<Vec<String>> {
+        if let Some((k, v)) = self.assoc_override.borrow_mut().take() {
+            if k == f.key {
+                return Some(v);
+            }
+        }
         if f.assoc_params.is_empty() || f.self_ty.is_none() {
             return None;
         }
@@ -56,8 +118,11 @@ impl<'a> Tr<'a> {
     }
 
     pub fn apply_fn_raw(&mut self, f: &FnInfo, cg: &[Val], recv: Option<&Val>, args: &[&Expr], env: &Env, at: &Expr) -> R<(String, Ty)> {
-        if f.has_mut_params() || f.fuel {
+        if f.has_mut_params() || f.opt() {
             return Err(unsupported(at, &format!("call of `{}` (`&mut` parameters / fuel) in a position where its effects cannot be sequenced", f.key)));
+        }
+        if f.usize_w {
+            self.usize_w.set(true);
         }
         let inherited = self.inherited_assoc(f, env);
         if self.turbofish_types.as_ref().map(|v| v.is_empty()).unwrap_or(false) {
@@ -272,6 +337,11 @@ impl<'a> Tr<'a> {
             }
             return Err(unsupported(at, &format!("call of `{}`: not a configured function (add it to functions.txt before its caller)", n)));
         }
+        if let Some((f, vals)) = self.trait_static_target(&p.path, env, at)? {
+            *self.assoc_override.borrow_mut() = Some((f.key.clone(), vals));
+            self.turbofish_types = None;
+            return self.apply_fn(&f, &[], None, &args, env, at);
+        }
         let fname = segs[segs.len() - 1].as_str();
         let mut tname_s = segs[segs.len() - 2].clone();
         if (fname == "min" || fname == "max") && tname_s == "cmp" && args.len() == 2 {
@@ -435,6 +505,14 @@ impl<'a> Tr<'a> {
             }
         }
         let recv = self.pure(&m.receiver, env, None)?;
+        if ((name == "unwrap" && args.is_empty()) || (name == "expect" && args.len() == 1)) && matches!(recv.ty, Ty::Option(_) | Ty::Result(_, _)) {
+            // `unwrap()` / `expect(..)` panic on None / Err: translated at statement level of a partial function only
+            if !self.partial {
+                self.needs_partial = true;
+                return Err(unsupported(at, "`unwrap()` / `expect()` (panics: retry as a partial function)"));
+            }
+            return Err(unsupported(at, "`unwrap()` / `expect()` in a position where the panic cannot be sequenced (inside a closure or a pure operand): bind it with `let` first"));
+        }
         match recv.ty.clone() {
             Ty::Int(t) => self.int_method(&name, recv, t, m, &args, env, hint, at),
             Ty::Adt(n) => {
@@ -722,6 +800,9 @@ impl<'a> Tr<'a> {
                 let a = arg(self, 0, &same)?;
                 let op = &name["saturating_".len()..];
                 let q = if matches!((op, ty), ("add", IntTy::U32) | ("sub", IntTy::U32) | ("add", IntTy::I32)) { "Prelude" } else { "Casts" };
+                if ty == IntTy::Usize {
+                    self.usize_w.set(true);
+                }
                 Ok(Val { s: format!("({}.sat_{}_{} {} {})", q, op, ty.name(), recv.s, a.s), ty: same })
             }
             ("wrapping_add", 1) | ("wrapping_sub", 1) | ("wrapping_mul", 1) => {
@@ -742,6 +823,9 @@ impl<'a> Tr<'a> {
                     "sub" => "-",
                     _ => "*",
                 };
+                if ty == IntTy::Usize {
+                    self.usize_w.set(true);
+                }
                 Ok(Val { s: format!("(Casts.checked_{} ({} {} {}))", ty.name(), recv.s, op, a.s), ty: Ty::Option(Box::new(same)) })
             }
             ("rem_euclid", 1) => {
@@ -816,7 +900,23 @@ impl<'a> Tr<'a> {
                             None => Err(unsupported(at, &format!("`.map(Into::into)` to `{}`: no `fn:from` member for {}", xn, inner.show()))),
                         }
                     }
-                    _ => Err(unsupported(at, "`.map(Into::into)` to a type that is not an abstract/extern type")),
+                    Ty::Adt(n) => {
+                        // the configured `impl From<inner> for n` (exactly one)
+                        let fs: Vec<FnInfo> = self
+                            .find_fns(Some(n), "from")
+                            .into_iter()
+                            .filter(|f| f.trait_name.as_deref().map_or(false, |t| t.starts_with("From<")) && f.params.len() == 1 && join(&f.params[0].1, inner).is_ok() && f.self_kind == SelfKind::None)
+                            .collect();
+                        if fs.len() != 1 {
+                            return Err(unsupported(at, &format!("`.map(Into::into)` to `{}`: {} configured `From<{}>::from`", n, fs.len(), inner.show())));
+                        }
+                        let f = fs[0].clone();
+                        if f.opt() || f.has_mut_params() || !f.assoc_params.is_empty() || !f.const_generics.is_empty() || !f.mvars.is_empty() {
+                            return Err(unsupported(at, &format!("`.map(Into::into)` through `{}` (fuel / parameters)", f.key)));
+                        }
+                        Ok(Val { s: format!("(match {} with | Some v_ => Some ({} v_) | None => None end)", recv.s, f.coq), ty: Ty::Option(Box::new(target.clone())) })
+                    }
+                    _ => Err(unsupported(at, "`.map(Into::into)` to a type that is not an abstract/extern type or a configured struct")),
                 }
             }
             ("map", 1) if matches!(args[0], Expr::Path(_)) => {
@@ -877,11 +977,10 @@ impl<'a> Tr<'a> {
                 Ok(Val { s: format!("(match {r} with | Some {p} => if {b} then {k} else None | None => None end)", r = recv.s, p = p, b = b.s, k = keep), ty: recv.ty.clone() })
             }
             ("copied", 0) | ("cloned", 0) | ("clone", 0) => Ok(recv),
-            ("unwrap", 0) if !self.fuel => {
-                // in a function that is fuelled anyway (result in `option`) unwrap on None gives None: try that
-                self.needs_fuel = true;
-                self.unwrap_retry = true;
-                Err(unsupported(at, "`unwrap()` (panics; only translated in a fuelled function, where None = no value)"))
+            ("unwrap", 0) | ("expect", 1) if !self.partial => {
+                // `unwrap()` panics on None: the function is partial (result in `option`, None = panic)
+                self.needs_partial = true;
+                Err(unsupported(at, "`unwrap()` (panics: retry as a partial function)"))
             }
             _ => Err(unsupported(at, &format!("Option method `{}` (not in the whitelist; unwrap/expect panic and are not translated)", name))),
         }
